@@ -82,7 +82,7 @@ def _run(ctx):
     assert len(shear_pairs) == 15
     nrand = ctx.pick(20, 40000)
     nlin = ctx.pick(14, 10000)
-    nstrain = ctx.pick(6, 3000)
+    nstrain = ctx.pick(8, 3000)
 
     for ik, (a, b) in enumerate(shear_pairs):
         if not ctx.mine(ik, f"key{a}{b}"):
@@ -212,6 +212,14 @@ def _run(ctx):
                 e = (1.0 / 3.0) * (1 + rg.uniform(-1, 1, size=(rows, 3)) * float(rg.choice([5e-4, 2e-3, 5e-3])))
             if n % 2:
                 e /= e.sum(axis=1, keepdims=True)
+            # other valid layouts of the same kind of data: whole-number proportions (integer dtype; only ratios matter),
+            # a non-contiguous view, a read-only array
+            if n % 8 == 4:
+                e = rg.integers(1, 100, size=(rows, 3))
+            elif n % 8 == 6:
+                e = numpy.asfortranarray(numpy.concatenate([e, e[::-1]], axis=0))[::2]
+            elif n % 8 == 7:
+                e.setflags(write=False)
             o2 = Shear(e, key)
             try:
                 sr = numpy.asarray(o2.strain_rotated)
@@ -219,7 +227,8 @@ def _run(ctx):
             except Exception as exc:
                 ctx.violation(f"strain_rotated-raises:{exc_site(exc)}", exc_text(exc), case_id)
                 continue
-            ctx.evaluation("strain_rotated", (tag, "s", n), sample={"key": tag, "strain": e[0], "rotated": sr[0]})
+            ctx.evaluation("strain_rotated|" + {4: "integer-dtype", 6: "non-contiguous", 7: "read-only"}.get(n % 8, "float"), (tag, "s", n),
+                           sample={"key": tag, "strain": e[0], "rotated": sr[0]})
             ref = numpy.einsum("ia,ni->na", T2 ** 2, e)     # diag(T^T diag(e) T)
             err = numpy.abs(sr - ref).max()
             ctx.maxi("strain_rotated_err/tol", err / TOL)
